@@ -43,6 +43,9 @@ type Fault struct {
 	N    int
 	Err  error  // the error returned (io.EOF is allowed for recv)
 	Data []byte // for recv: data returned together with Err
+	// Sticky makes every later operation of the same kind fail with Err too
+	// (without data): the transport is dead from that point on.
+	Sticky bool
 }
 
 // ErrInjected is the default injected error.
@@ -114,8 +117,12 @@ func (e *End) fault(op string, n int64) *Fault {
 	e.fmu.Lock()
 	defer e.fmu.Unlock()
 	for i := range e.faults {
-		if e.faults[i].Op == op && int64(e.faults[i].N) == n {
-			return &e.faults[i]
+		f := &e.faults[i]
+		if f.Op == op && int64(f.N) == n {
+			return f
+		}
+		if f.Op == op && f.Sticky && int64(f.N) < n {
+			return &Fault{Op: op, N: int(n), Err: f.Err, Sticky: true}
 		}
 	}
 	return nil
@@ -163,6 +170,7 @@ func (e *End) Send(rec []byte) error {
 	e.spin()
 	var err error
 	if f := e.fault(OpSend, k); f != nil {
+		e.event("fault.send", nil)
 		err = f.Err
 		if err == nil {
 			err = ErrInjected
@@ -201,6 +209,7 @@ func (e *End) Recv() ([]byte, error) {
 	e.event("recv.enter", nil)
 	e.spin()
 	if f := e.fault(OpRecv, k); f != nil {
+		e.event("fault.recv", f.Data)
 		err := f.Err
 		if err == nil {
 			err = ErrInjected
